@@ -9,6 +9,7 @@
    "poskw"   __init__(self, a, b=7, **params)      (signature default 7 differs
                                                      from the Parameter default 4)
    "closed"  __init__(self, a, b=7)                 (no **params)
+   "kwonly"  __init__(self, a, *, b=7)              (b keyword-only, no **params)
  with parameters a, b (numbers), s (string), l (list), t (tuple-valued),
  sub (None or a nested Parameterized object) and the name.  A state chooses
  the shape and a value token for every parameter.  The module predicts the
@@ -36,7 +37,7 @@ Init == /\ shape \in Shapes /\ defa \in DefAVals
         /\ val \in [a : AVals, b : BVals, s : SVals, l : LVals, t : TVals, sub : SubVals, d : DVals]
         /\ name \in NameVals
         \* a constructor without **params cannot receive the other parameters: they keep their defaults
-        /\ (shape = "closed" => /\ \A p \in PNames \ {"a", "b"} : val[p] = Default[p]
+        /\ (shape \in {"closed", "kwonly"} => /\ \A p \in PNames \ {"a", "b"} : val[p] = Default[p]
                                 /\ name = "auto")
 Next == UNCHANGED vars
 Spec == Init /\ [][Next]_vars
@@ -48,14 +49,14 @@ ExplicitName == name # "auto"
 Keywords ==
   (CASE shape \in {"kw", "pos2"} -> Changed \ PosSet
      [] shape = "poskw" -> (Changed \ {"a", "b"}) \cup (IF val.b # SigDefaultB THEN {"b"} ELSE {})
-     [] shape = "closed" -> IF val.b # SigDefaultB THEN {"b"} ELSE {})
-  \cup (IF ExplicitName /\ shape # "closed" THEN {"name"} ELSE {})
+     [] shape \in {"closed", "kwonly"} -> IF val.b # SigDefaultB THEN {"b"} ELSE {})
+  \cup (IF ExplicitName /\ shape \notin {"closed", "kwonly"} THEN {"name"} ELSE {})
 
 \* applying the predicted call to the abstract constructor
 Rebuilt ==
   [p \in PNames |->
      IF p \in PosSet \/ p \in Keywords THEN val[p]
-     ELSE IF p = "b" /\ shape \in {"poskw", "closed"} THEN SigDefaultB      \* the signature default is passed on
+     ELSE IF p = "b" /\ shape \in {"poskw", "closed", "kwonly"} THEN SigDefaultB      \* the signature default is passed on
      ELSE Default[p]]
 \* C20 on the specification: the predicted text denotes a call that rebuilds the original values
 Rebuilds == Rebuilt = val
